@@ -1,6 +1,8 @@
 import EaselModel.WorkQueue.Lemmas
 import EaselModel.Dsqdata.CodecLemmas
+import EaselModel.Dsqdata.LoaderLemmas
 import EaselModel.Threads.Lemmas
+import EaselModel.Pipeline.StepOthers
 /-! # C12 — property theorems (statements + glue only; lemmas live in WorkQueue/*.lean, Dsqdata/*.lean)
 
 Work queue (`esl_workqueue.c`): every theorem is about *all* states reachable from `esl_workqueue_Create(size)` by
@@ -144,6 +146,36 @@ example : unpack2 (pack2 [0, 1, 2, 3, 15, 30, 0, 7]) = some ([0, 1, 2, 3, 15, 30
 /-- the hypothesis `≤ 30` is needed: code 31 is read back as the end marker -/
 example : unpack5 (pack5 [1, 31, 2]) = some ([1], 1) := by decide +kernel
 
+/-! ## dsqdata loader arithmetic (`dsqdata_loader_thread`: index carry-over and the `nload` computation) -/
+
+/-- **`nload` is the largest prefix whose packets fit** (`1 ≤ nload`): under the loader's running assumption that the
+    first record fits, the binary search returns `n` with record `n-1` fitting and record `n` (if any) not fitting;
+    no out-of-bounds index (`some`). With strictly increasing ends (`chooseNload_max`): record `k` fits iff `k < n`. -/
+theorem loader_nload_largest_prefix (idx : List Rec) (psqLast maxpacket : Int) (hne : idx ≠ [])
+    (hinc : EndsIncreasing idx) (hfirst : (idx[0]'(List.length_pos_iff.mpr hne)).psqEnd - psqLast ≤ maxpacket) :
+    ∃ n, chooseNload idx psqLast maxpacket = some n ∧ 1 ≤ n ∧ n ≤ idx.length ∧
+      (∀ (h : n - 1 < idx.length), (idx[n-1]).psqEnd - psqLast ≤ maxpacket) ∧
+      (∀ (h : n < idx.length), (idx[n]).psqEnd - psqLast > maxpacket) :=
+  chooseNload_spec idx psqLast maxpacket hne hinc hfirst
+
+/-- **The loader cuts the database into maximal contiguous chunks and never faults**, for every database
+    (`ps` = packets per sequence, `ms` = metadata bytes per sequence, index as `esl_dsqdata_Write` writes it), every
+    `maxseq ≥ 1` and every `maxpacket`, under the writer's guarantee that one sequence fits a chunk (`p ≤ maxpacket`):
+    chunk `j` starts where chunk `j-1` ended, all sequences are covered, `1 ≤ N ≤ maxseq`, `pn ≤ maxpacket` is the
+    packet sum of its sequences, and a chunk stops short of `maxseq` only if the next sequence does not fit. -/
+theorem loader_chunks_partition (ps ms : List Nat) (maxseq : Nat) (maxpacket : Int) (hlen : ps.length = ms.length)
+    (hps : ∀ p ∈ ps, 1 ≤ p ∧ (p : Int) ≤ maxpacket) (hms : 1 ≤ maxseq) :
+    ∃ cs, loaderChunks maxseq maxpacket (ps.length + 1) (LState.init (indexOf (ps.zip ms) 0 0)) = some cs ∧
+      (cs.map (·.n)).sum = ps.length ∧
+      (∀ j (hj : j < cs.length), (cs[j]).i0 = ((cs.take j).map (·.n)).sum) ∧
+      (∀ c ∈ cs, 1 ≤ c.n ∧ c.n ≤ maxseq ∧ c.i0 + c.n ≤ ps.length ∧ 0 ≤ c.pn ∧ c.pn ≤ maxpacket ∧
+        c.pn = (((ps.drop c.i0).take c.n).sum : Nat) ∧ c.nmeta = (((ms.drop c.i0).take c.n).sum : Nat)) ∧
+      (∀ c ∈ cs, c.n < maxseq → c.i0 + c.n < ps.length → c.pn + (ps.getD (c.i0 + c.n) 0 : Nat) > maxpacket) :=
+  loaderChunks_spec ps ms maxseq maxpacket hlen hps hms
+
+/-- the guarantee is needed: a sequence with more packets than a chunk holds makes the loader overrun its buffer -/
+example : loaderChunks 4 10 3 (LState.init (indexOf ([3, 11].zip [5, 5]) 0 0)) = none := by decide
+
 /-! ## esl_threads start rendezvous (`AddThread`, `WaitForStart`, `Started`), every schedule, any number of workers -/
 section threads
 open EaselModel.Threads
@@ -191,5 +223,41 @@ example : ∃ s, Threads.run Threads.Sys.create [.add, .add, .arrive 0, .add, .m
       .masterWake, .workerWake 1, .workerWake 0] = some s ∧ s.passed = [0, 1] ∧ s.wWait = [(2, true)] ∧ s.master = .released := by
   refine ⟨_, rfl, ?_, ?_, ?_⟩ <;> decide
 end threads
+
+/-! ## dsqdata reader pipeline (loader, `U` unpackers, any number of consumers), every schedule
+
+`Pipeline.Reachable U T C s`: `s` is reachable from `esl_dsqdata_Open` on a database of `T` chunks with `U`
+unpackers by any interleaving of loader / unpacker / consumer steps (one per mutex-protected region, spurious
+wake-ups allowed, any number of consumers calling `Read` and `Recycle` in any order). -/
+section pipeline
+open EaselModel.Pipeline
+
+/-- **Order, exactly once.** The chunks returned by `esl_dsqdata_Read`, in the order of the consumer-shared counter
+    `nchunk`, are chunk 0, 1, 2, … - each exactly once, none skipped - whatever the schedule. -/
+theorem pipe_order {U T C : Nat} (hU : 0 < U) {s : Pipeline.Sys} (h : Pipeline.Reachable U T C s) :
+    s.returned = List.range s.nchunk ∧ s.nchunk ≤ s.T :=
+  let i := Pipeline.reachable_inv hU h
+  ⟨i.ret, Nat.le_trans i.bounds.1 i.bounds.2⟩
+
+/-- **EOF only after everything.** A consumer is told `eslEOF` only when all `T` chunks have been returned. -/
+theorem pipe_eof_after_all {U T C : Nat} (hU : 0 < U) {s : Pipeline.Sys} (h : Pipeline.Reachable U T C s)
+    (he : s.eofs ≠ []) : s.returned = List.range s.T := by
+  have i := Pipeline.reachable_inv hU h
+  rw [i.ret, i.eof he]
+
+/-- chunk numbers inside the pipeline: each lane `u` carries, oldest first, strictly increasing numbers `≡ u (mod U)`
+    from `[nchunk, nchunkL)`, and every number of that interval is in its lane (nothing lost inside the pipeline) -/
+theorem pipe_lanes {U T C : Nat} (hU : 0 < U) {s : Pipeline.Sys} (h : Pipeline.Reachable U T C s) :
+    (∀ u < s.U, (s.lane u).ks.Pairwise (· < ·) ∧ ∀ k ∈ (s.lane u).ks, k % s.U = u ∧ s.nchunk ≤ k ∧ k < s.nchunkL) ∧
+    (∀ k, s.nchunk ≤ k → k < s.nchunkL → k ∈ (s.lane (k % s.U)).ks) ∧ s.nchunkL ≤ s.T :=
+  let i := Pipeline.reachable_inv hU h
+  ⟨fun u hu => ⟨i.sorted u hu, i.range u hu⟩, i.complete, i.bounds.2⟩
+
+/-- non-vacuity: 3 chunks through 2 unpackers, two consumers; chunk 0 and 1 returned in order -/
+example : ∃ s, Pipeline.run (Pipeline.Sys.create 2 3 2)
+    [.loader, .loader, .loader, .unpacker 0, .loader, .loader, .loader, .unpacker 1, .unpacker 0, .read 7, .unpacker 1, .read 8, .recycle 7 0 0]
+      = some s ∧ s.returned = [0, 1] ∧ s.cheld = [(8, (1, 1))] ∧ s.recycling = [0] := by
+  refine ⟨_, rfl, ?_, ?_, ?_⟩ <;> decide
+end pipeline
 
 end EaselModel.Props.C12
